@@ -231,6 +231,17 @@ Proof.
     + cbn [app] in Hps. rewrite Hps. unfold get_path. apply walk_get. assumption.
 Qed.
 
+(* research with a query that never raises is the plain research, whatever `reraise` *)
+Theorem research_x_total : forall q rr root,
+  research_x (fun p k s => Some (q p k s)) rr root = research q root.
+Proof.
+  intros q rr root. unfold research_x, research.
+  assert (H : forall lg, reported_x (fun p k s => Some (q p k s)) rr lg = Ok (reported q lg)).
+  { induction lg as [|e r IH]; [reflexivity|]. cbn [reported_x reported flat_map].
+    destruct e as [p k o s|]; [|exact IH]. destruct (q p k s); rewrite IH; reflexivity. }
+  destruct (remap None true (collect_defs root) root); try reflexivity; rewrite H; reflexivity.
+Qed.
+
 (* the get_path loop (model) computes Spec.lookup_path: value, or PathAccessError *)
 Theorem get_path_is_lookup : forall root p,
   get_path root p = match lookup_path (collect_defs root) root p with Some r => Ok r | None => Raise KeyError end.
